@@ -165,40 +165,40 @@ SPECS["dead_letter.rs::record"] = dict(record_emit=True, requires=[], ensures=[
 # ------------------------------------------------------------------ send side
 AMB = "same_ambient_but_dl(*old(w), *final(w))"
 SPECS["actor_ref.rs::ActorRef::tell"] = dict(ret="result", ensures=[
-    C("tell.relation", "C01 C02 C09 C13", "r_tell::<T, M>(*self, msg_id(msg), old(w).log(), final(w).log(), result, \"tell\"@)"),
+    C("tell.relation", "C01 C02 C09 C13", "r_tell::<M>(self.hv(), msg_id(msg), old(w).log(), final(w).log(), result, \"tell\"@)"),
     C("tell.frame", "C12", AMB),
 ])
 SPECS["actor_ref.rs::ActorRef::tell_with_timeout"] = dict(ret="result", ensures=[
-    C("tell_with_timeout.relation", "C01 C10 C13", "r_tell_timeout::<T, M>(*self, msg_id(msg), timeout, old(w).log(), final(w).log(), result, \"tell\"@)"),
+    C("tell_with_timeout.relation", "C01 C10 C13", "r_tell_timeout::<M>(self.hv(), msg_id(msg), timeout, old(w).log(), final(w).log(), result, \"tell\"@)"),
     C("tell_with_timeout.frame", "C12", AMB),
 ])
 SPECS["actor_ref.rs::ActorRef::kill"] = dict(ret="result", ensures=[
-    C("kill.relation", "C06", "r_kill(*self, old(w).log(), final(w).log(), result)"),
+    C("kill.relation", "C06", "r_kill(self.hv(), old(w).log(), final(w).log(), result)"),
     C("kill.frame", "C12", "same_ambient(*old(w), *final(w))"),
 ])
 SPECS["actor_ref.rs::ActorRef::stop"] = dict(ret="result", ensures=[
-    C("stop.relation", "C01 C02 C07 C09", "r_stop(*self, old(w).log(), final(w).log(), result)"),
+    C("stop.relation", "C01 C02 C07 C09", "r_stop(self.hv(), old(w).log(), final(w).log(), result)"),
     C("stop.frame", "C12", "same_ambient(*old(w), *final(w))"),
 ])
 SPECS["actor_ref.rs::ActorRef::is_alive"] = dict(ret="result", ensures=[
-    C("is_alive.relation", "C11", "r_is_alive(*self, old(w).log(), final(w).log(), result)"),
+    C("is_alive.relation", "C11", "r_is_alive(self.hv(), old(w).log(), final(w).log(), result)"),
 ])
 SPECS["actor_ref.rs::ActorRef::blocking_tell_no_timeout"] = dict(ret="result", ensures=[
-    C("blocking_tell_no_timeout.relation", "C17 C02 C13", "r_tell::<T, M>(*self, msg_id(msg), old(w).log(), final(w).log(), result, \"blocking_tell\"@)"),
+    C("blocking_tell_no_timeout.relation", "C17 C02 C13", "r_tell::<M>(self.hv(), msg_id(msg), old(w).log(), final(w).log(), result, \"blocking_tell\"@)"),
     C("blocking_tell_no_timeout.frame", "C12", AMB),
 ])
 SPECS["actor_ref.rs::ActorRef::blocking_tell"] = dict(ret="result", ensures=[
-    C("blocking_tell.none_is_no_timeout_variant", "C17", "timeout is None ==> r_tell::<T, M>(*self, msg_id(msg), old(w).log(), final(w).log(), result, \"blocking_tell\"@)"),
+    C("blocking_tell.none_is_no_timeout_variant", "C17", "timeout is None ==> r_tell::<M>(self.hv(), msg_id(msg), old(w).log(), final(w).log(), result, \"blocking_tell\"@)"),
     C("blocking_tell.some_goes_to_timeout_impl_with_d", "C17 C10",
       "timeout matches Some(d) ==> final(w).log() =~= old(w).log().push(Eff::Opaque(OpaqueTag::BlockingTellTimeout { pid: msg_id(msg), d: d, chan: self.mbx_chan() }))"),
 ])
 SPECS["actor_ref.rs::ActorRef::tell_blocking"] = dict(ret="result", ensures=[
-    C("tell_blocking.alias_ignores_timeout", "C17", "r_tell::<T, M>(*self, msg_id(msg), old(w).log(), final(w).log(), result, \"blocking_tell\"@)"),
+    C("tell_blocking.alias_ignores_timeout", "C17", "r_tell::<M>(self.hv(), msg_id(msg), old(w).log(), final(w).log(), result, \"blocking_tell\"@)"),
 ])
 
 
 def _ask(features):
-    rel = "r_ask::<T, M, T::Reply>(*self, msg_id(msg), *old(w), *final(w), result, \"ask\"@)"
+    rel = "r_ask::<M, T::Reply>(self.hv(), msg_id(msg), *old(w), *final(w), result, \"ask\"@)"
     d = dict(ret="result", ensures=[
         C("ask.relation", "C01 C02 C03 C13", rel),
         C("ask.frame", "C12", AMB),
@@ -209,38 +209,38 @@ def _ask(features):
 SPECS["actor_ref.rs::ActorRef::ask"] = _ask
 SPECS["actor_ref.rs::ActorRef::ask_with_timeout"] = dict(ret="result", ensures=[
     C("ask_with_timeout.relation", "C01 C03 C10 C13",
-      "r_ask_timeout::<T, M, T::Reply>(*self, msg_id(msg), timeout, *old(w), *final(w), result, \"ask\"@)"),
+      "r_ask_timeout::<M, T::Reply>(self.hv(), msg_id(msg), timeout, *old(w), *final(w), result, \"ask\"@)"),
     C("ask_with_timeout.frame", "C12", AMB),
 ])
 SPECS["actor_ref.rs::ActorRef::blocking_ask_no_timeout"] = dict(ret="result", ensures=[
     C("blocking_ask_no_timeout.relation", "C17 C02 C03 C13",
-      "r_ask_core::<T, M, T::Reply>(*self, msg_id(msg), old(w).log(), final(w).log(), result, \"blocking_ask\"@)"),
+      "r_ask_core::<M, T::Reply>(self.hv(), msg_id(msg), old(w).log(), final(w).log(), result, \"blocking_ask\"@)"),
     C("blocking_ask_no_timeout.frame", "C12", AMB),
 ])
 SPECS["actor_ref.rs::ActorRef::blocking_ask"] = dict(ret="result", ensures=[
     C("blocking_ask.none_is_no_timeout_variant", "C17",
-      "timeout is None ==> r_ask_core::<T, M, T::Reply>(*self, msg_id(msg), old(w).log(), final(w).log(), result, \"blocking_ask\"@)"),
+      "timeout is None ==> r_ask_core::<M, T::Reply>(self.hv(), msg_id(msg), old(w).log(), final(w).log(), result, \"blocking_ask\"@)"),
     C("blocking_ask.some_goes_to_timeout_impl_with_d", "C17 C10",
       "timeout matches Some(d) ==> final(w).log() =~= old(w).log().push(Eff::Opaque(OpaqueTag::BlockingAskTimeout { pid: msg_id(msg), d: d, chan: self.mbx_chan() }))"),
 ])
 SPECS["actor_ref.rs::ActorRef::ask_blocking"] = dict(ret="result", ensures=[
     C("ask_blocking.alias_ignores_timeout", "C17",
-      "r_ask_core::<T, M, T::Reply>(*self, msg_id(msg), old(w).log(), final(w).log(), result, \"blocking_ask\"@)"),
+      "r_ask_core::<M, T::Reply>(self.hv(), msg_id(msg), old(w).log(), final(w).log(), result, \"blocking_ask\"@)"),
 ])
 SPECS["actor_ref.rs::ActorRef::ask_join"] = dict(ret="result", ensures=[
-    C("ask_join.awaits_the_handle_returned_by_ask", "C03", "r_ask_join::<T, M, R>(*self, msg_id(msg), *old(w), *final(w), result)"),
+    C("ask_join.awaits_the_handle_returned_by_ask", "C03", "r_ask_join::<M, R>(self.hv(), msg_id(msg), *old(w), *final(w), result)"),
 ])
 
 
 # ------------------------------------------------------------------ weak handles
 SPECS["actor_ref.rs::ActorWeak::upgrade"] = dict(ret="result", ensures=[
-    C("actor_weak.upgrade.some_iff_both_senders_upgrade", "C07 C11", "r_upgrade(*self, old(w).log(), final(w).log(), result is Some)"),
+    C("actor_weak.upgrade.some_iff_both_senders_upgrade", "C07 C11", "r_upgrade(self.hv(), old(w).log(), final(w).log(), result is Some)"),
     C("actor_weak.upgrade.same_actor", "C07 C11",
-      "result matches Some(a) ==> a.id == self.id && a.sender.chan() == self.sender.chan() && a.terminate_sender.chan() == self.terminate_sender.chan()"),
+      "result matches Some(a) ==> a.hv() == self.hv()"),
     C("actor_weak.upgrade.frame", "C12", "same_ambient(*old(w), *final(w))"),
 ])
 SPECS["actor_ref.rs::ActorWeak::is_alive"] = dict(ret="result", ensures=[
-    C("actor_weak.is_alive.iff_both_strong_counts_positive", "C11", "r_weak_alive(*self, old(w).log(), final(w).log(), result)"),
+    C("actor_weak.is_alive.iff_both_strong_counts_positive", "C11", "r_weak_alive(self.hv(), old(w).log(), final(w).log(), result)"),
 ])
 
 # ------------------------------------------------------------------ spawn / capacity
@@ -258,7 +258,7 @@ SPECS["lib.rs::set_default_mailbox_capacity"] = dict(ret="result", ensures=[
 SPAWN_POST = [
     C("spawn.capacity_positive_or_panic", "C09", "cap_used > 0"),
     C("spawn.effects_exactly", "C09 C11 C01 C02",
-      "final(w).log() =~= spawn_tail::<T>(LOG0, r.0, cap_used, val_id(args))"),
+      "final(w).log() =~= spawn_tail(LOG0, r.0.hv(), cap_used, val_id(args))"),
     C("spawn.ref_points_at_spawned_task_channels", "C06 C11", "r.0.mbx_chan() != r.0.ctl_chan()"),
     C("spawn.identity_fresh", "C11", "r.0.id.id as int >= old(w).id_floor() && final(w).id_floor() > r.0.id.id as int"),
     C("spawn.identity_type_name", "C11", "r.0.id.type_name@ == type_name_spec::<T>()"),
@@ -284,6 +284,78 @@ SPECS["lib.rs::spawn"] = dict(
              _sub(SPAWN_POST, cap_used="default_capacity(*old(w))", LOG0="old(w).log().push(Eff::CellGet(cell_DEFAULT_CAPACITY(), old(w).cap_cell()))")]
     + [
        C("spawn_default.default_is_32", "C09", "DEFAULT_MAILBOX_CAPACITY == 32")])
+
+
+# ------------------------------------------------------------------ type-erased handles (C16): the SAME named relations
+def _erased():
+    T = "self.target()"
+    tell = [C("erased.tell.same_relation_as_inherent", "C16 C01 C02", "r_tell::<M>(%s, msg_id(msg), old(w).log(), final(w).log(), r, \"tell\"@)" % T)]
+    tellt = [C("erased.tell_with_timeout.same_relation_as_inherent", "C16 C10", "r_tell_timeout::<M>(%s, msg_id(msg), timeout, old(w).log(), final(w).log(), r, \"tell\"@)" % T)]
+    btell = [
+        C("erased.blocking_tell.none_same_relation", "C16 C17", "timeout is None ==> r_tell::<M>(%s, msg_id(msg), old(w).log(), final(w).log(), r, \"blocking_tell\"@)" % T),
+        C("erased.blocking_tell.some_keeps_its_timeout", "C16 C17 C10",
+          "timeout matches Some(d) ==> final(w).log() =~= old(w).log().push(Eff::Opaque(OpaqueTag::BlockingTellTimeout { pid: msg_id(msg), d: d, chan: %s.mbx }))" % T)]
+    ask = [C("erased.ask.same_relation_as_inherent", "C16 C03 C14", "r_ask::<M, R>(%s, msg_id(msg), *old(w), *final(w), r, \"ask\"@)" % T)]
+    askt = [C("erased.ask_with_timeout.same_relation_as_inherent", "C16 C10 C14", "r_ask_timeout::<M, R>(%s, msg_id(msg), timeout, *old(w), *final(w), r, \"ask\"@)" % T)]
+    bask = [
+        C("erased.blocking_ask.none_same_relation", "C16 C17", "timeout is None ==> r_ask_core::<M, R>(%s, msg_id(msg), old(w).log(), final(w).log(), r, \"blocking_ask\"@)" % T),
+        C("erased.blocking_ask.some_keeps_its_timeout", "C16 C17 C10",
+          "timeout matches Some(d) ==> final(w).log() =~= old(w).log().push(Eff::Opaque(OpaqueTag::BlockingAskTimeout { pid: msg_id(msg), d: d, chan: %s.mbx }))" % T)]
+    same = lambda lab: [C(lab, "C16 C11", "r.target() == self.target()")]
+    S = {}
+    S["handler.rs::TellHandler::tell"] = dict(ensures=tell)
+    S["handler.rs::TellHandler::tell_with_timeout"] = dict(ensures=tellt)
+    S["handler.rs::TellHandler::blocking_tell"] = dict(ensures=btell)
+    S["handler.rs::TellHandler::as_control"] = dict(pure=True, ensures=same("erased.tell_handler.as_control.same_actor"))
+    S["handler.rs::AskHandler::ask"] = dict(ensures=ask)
+    S["handler.rs::AskHandler::ask_with_timeout"] = dict(ensures=askt)
+    S["handler.rs::AskHandler::blocking_ask"] = dict(ensures=bask)
+    S["handler.rs::AskHandler::as_control"] = dict(pure=True, ensures=same("erased.ask_handler.as_control.same_actor"))
+    S["handler.rs::WeakTellHandler::as_weak_control"] = dict(pure=True, ensures=same("erased.weak_tell_handler.as_weak_control.same_actor"))
+    S["handler.rs::WeakAskHandler::as_weak_control"] = dict(pure=True, ensures=same("erased.weak_ask_handler.as_weak_control.same_actor"))
+    S["actor_control.rs::ActorControl::identity"] = dict(pure=True, ensures=[C("erased.control.identity.same", "C16 C11", "r == self.target().id")])
+    S["actor_control.rs::ActorControl::is_alive"] = dict(ensures=[C("erased.control.is_alive.same_relation", "C16 C11", "r_is_alive(%s, old(w).log(), final(w).log(), r)" % T)])
+    S["actor_control.rs::ActorControl::stop"] = dict(ensures=[C("erased.control.stop.same_relation", "C16 C07", "r_stop(%s, old(w).log(), final(w).log(), r)" % T)])
+    S["actor_control.rs::ActorControl::kill"] = dict(ensures=[C("erased.control.kill.same_relation", "C16 C06", "r_kill(%s, old(w).log(), final(w).log(), r)" % T)])
+    S["actor_control.rs::WeakActorControl::identity"] = dict(pure=True, ensures=[C("erased.weak_control.identity.same", "C16 C11", "r == self.target().id")])
+    S["actor_control.rs::WeakActorControl::is_alive"] = dict(ensures=[C("erased.weak_control.is_alive.same_relation", "C16 C11", "r_weak_alive(%s, old(w).log(), final(w).log(), r)" % T)])
+    # impl methods that stay in the trait: contract inherited from the declaration (pure flags must agree)
+    for tr, who in (("TellHandler", "ActorRef"), ("AskHandler", "ActorRef")):
+        S["handler.rs::%s for %s::as_control" % (tr, who)] = dict(pure=True)
+    for tr, who in (("WeakTellHandler", "ActorWeak"), ("WeakAskHandler", "ActorWeak")):
+        S["handler.rs::%s for %s::as_weak_control" % (tr, who)] = dict(pure=True)
+    S["actor_control.rs::ActorControl for ActorRef::identity"] = dict(pure=True)
+    S["actor_control.rs::WeakActorControl for ActorWeak::identity"] = dict(pure=True)
+    # lifted (R10) members: clone_boxed / downgrade / upgrade and the Clone / From impls
+    def lifted(file, owner, who, tag):
+        S["%s::%s for %s::clone_boxed" % (file, owner, who)] = dict(pure=True, ensures=[
+            C("erased.%s.clone_boxed.same_actor" % tag, "C16 C11 C07", "r.target() == this.hv()")])
+        if who == "ActorRef":
+            S["%s::%s for %s::downgrade" % (file, owner, who)] = dict(pure=True, ensures=[
+                C("erased.%s.downgrade.same_actor" % tag, "C16 C11 C07", "r.target() == this.hv()")])
+        else:
+            S["%s::%s for %s::upgrade" % (file, owner, who)] = dict(ensures=[
+                C("erased.%s.upgrade.same_relation" % tag, "C16 C07 C11", "r_upgrade(this.hv(), old(w).log(), final(w).log(), r is Some)"),
+                C("erased.%s.upgrade.same_actor" % tag, "C16 C07 C11", "r matches Some(b) ==> b.target() == this.hv()")])
+    lifted("handler.rs", "TellHandler", "ActorRef", "tell_handler")
+    lifted("handler.rs", "AskHandler", "ActorRef", "ask_handler")
+    lifted("handler.rs", "WeakTellHandler", "ActorWeak", "weak_tell_handler")
+    lifted("handler.rs", "WeakAskHandler", "ActorWeak", "weak_ask_handler")
+    lifted("actor_control.rs", "ActorControl", "ActorRef", "control")
+    lifted("actor_control.rs", "WeakActorControl", "ActorWeak", "weak_control")
+    for file, tr in (("handler.rs", "TellHandler"), ("handler.rs", "AskHandler"), ("handler.rs", "WeakTellHandler"),
+                     ("handler.rs", "WeakAskHandler"), ("actor_control.rs", "ActorControl"), ("actor_control.rs", "WeakActorControl")):
+        S["%s::Clone for Box<dyn %s>::clone" % (file, tr)] = dict(pure=True, dyn_calls={"clone_boxed": "vx_dyn__clone_boxed__%s" % tr}, ensures=[
+            C("erased.box_%s.clone.same_actor" % tr, "C16 C11", "r.target() == this.target()")])
+        src = "ActorWeak" if tr.startswith("Weak") else "ActorRef"
+        S["%s::From<%s> for Box<dyn %s>::from" % (file, src, tr)] = dict(pure=True, ensures=[
+            C("erased.from_%s_for_%s.same_actor" % (src, tr), "C16 C11 C07", "r.target() == %s.hv()" % ("actor_weak" if src == "ActorWeak" else "actor_ref"))])
+        S["%s::From<&%s> for Box<dyn %s>::from" % (file, src, tr)] = dict(pure=True, ensures=[
+            C("erased.from_ref_%s_for_%s.same_actor" % (src, tr), "C16 C11 C07", "r.target() == %s.hv()" % ("actor_weak" if src == "ActorWeak" else "actor_ref"))])
+    return S
+
+
+SPECS.update(_erased())
 
 
 # ====================================================================== metadata used by ./check
